@@ -508,6 +508,8 @@ PubItems(sets, k) ==
 EncTable(t, le) == t.pre \o FlatW([i \in DOMAIN t.entries |-> Lay(t.entries[i], le)], t.w) \o t.tail
 (* lookup with base = Len(pre): the entry if index < number of entries, otherwise an error *)
 TableGet(t, index) == IF index < Len(t.entries) THEN [ok |-> ZExt(t.entries[index + 1], 8)] ELSE ErrAny
+(* the index is a full 64-bit value in the API (ULEB128 DW_FORM_strx / addrx); tables have < 2^31 entries *)
+TableGetBV(t, ibv) == IF FitsNat(ibv) THEN TableGet(t, ToNat(ibv)) ELSE ErrAny
 
 (***************************************************************************)
 (* 7. The section loader as a function SectionId -> field.                 *)
